@@ -14,12 +14,15 @@ TBoxes == {EmptyBox} \cup {b \in { << <<x1, y1>>, <<x2, y2>> >> :
 InfCoords == {NInf, 0, 2, PInf}
 InfBoxes == {b \in { << <<x1, y1>>, <<x2, y2>> >> : x1 \in InfCoords, y1 \in InfCoords, x2 \in InfCoords, y2 \in InfCoords } :
                b[1][1] <= b[2][1] /\ b[1][2] <= b[2][2] /\ \E i \in 1..2, j \in 1..2 : b[i][j] \in {NInf, PInf}}
+FullPlane == << <<NInf, NInf>>, <<PInf, PInf>> >>
 BoxHash(b) == (b[1][1] * 3 + b[1][2] * 5 + b[2][1] * 7 + b[2][2] * 11) % 1009
 InfPairs == {p \in InfBoxes \X (InfBoxes \cup WFBoxes) : (BoxHash(p[1]) + 13 * BoxHash(p[2])) % InfThin = 0}
 
 CaseSet == [kind : {"geom"}, g : GeomCases(L2, L3o, L3i, LG)]
            \cup [kind : {"box2"}, a : WFBoxes, b : WFBoxes]
            \cup {[kind |-> "box2", a |-> p[1], b |-> p[2]] : p \in InfPairs} \cup {[kind |-> "box2", a |-> p[2], b |-> p[1]] : p \in InfPairs}
+           \cup {[kind |-> "box2", a |-> EmptyBox, b |-> FullPlane], [kind |-> "box2", a |-> FullPlane, b |-> EmptyBox],
+                 [kind |-> "box2", a |-> FullPlane, b |-> FullPlane]}          \* the empty box shares no point even with the whole plane
            \cup [kind : {"boxext"}, a : WFBoxes, b : {x \in Boxes : BoxEmpty(x) /\ x # EmptyBox}]   \* Extend by any box Empty() calls empty
            \cup (IF TripleCoords = {} THEN {} ELSE [kind : {"box3"}, a : TBoxes, b : TBoxes, c : TBoxes])
 
